@@ -1496,9 +1496,12 @@ func opTable() map[string]func(*Interp) error {
 		switch cat.S {
 		case "CMap":
 			return unsup("defineresource in category CMap needs a CodeMap built by the CMap operators (C07)")
-		case "Font", "CIDFont":
+		case "Font", "CIDFont", "ProcSet":
+			// PLRM 3.9.2, table 3.8: the instances of all three categories are
+			// dictionaries; "typecheck: the instance is not of the proper type
+			// for the category"
 			if _, isD := inst.(Dict); !isD {
-				return unsup("defineresource of a non-dictionary in category %s", cat.S)
+				return psErr("defineresource", "typecheck")
 			}
 		}
 		cd.D.M[k] = inst
